@@ -77,6 +77,9 @@ var targets = []target{
 	{"pkg/store/store.go", "", "encodeHeight", false},
 	{"pkg/store/store.go", "", "decodeHeight", false},
 	{"block/manager.go", "", "getInitialState", false},
+	{"block/retriever.go", "Manager", "RetrieveLoop", false},
+	{"block/submitter.go", "Manager", "HeaderSubmissionLoop", false},
+	{"block/submitter.go", "Manager", "DataSubmissionLoop", false},
 	{"block/manager.go", "Manager", "LoadCache", false},
 	{"block/manager.go", "Manager", "SaveCache", false},
 	{"pkg/cache/cache.go", "", "saveMapGob", false},
@@ -118,6 +121,7 @@ func list(xs []string) string { return "[" + strings.Join(xs, "; ") + "]" }
 type tr struct {
 	imports map[string]bool // local names of imported packages in the current file
 	n       int
+	inEndless bool               // inside the body of an endless loop translated as one iteration: `continue` = return $continue
 	nresults int                 // number of results of the function being translated
 	goTmps  map[string][]string // errgroup variable -> temporaries holding the results of its g.Go(func) bodies
 }
@@ -330,13 +334,38 @@ func (t *tr) block(b *ast.BlockStmt) string {
 // (the function's result) or reaches the end of the body, which means "the same body runs again, from the same
 // local state"; lemmas are then stated per iteration.
 func (t *tr) body(b *ast.BlockStmt) string {
-	if b != nil && len(b.List) == 1 {
-		if fs, ok := b.List[0].(*ast.ForStmt); ok && fs.Init == nil && fs.Cond == nil && fs.Post == nil {
+	if b != nil && len(b.List) >= 1 {
+		if fs, ok := b.List[len(b.List)-1].(*ast.ForStmt); ok && fs.Init == nil && fs.Cond == nil && fs.Post == nil {
+			// names declared before the loop must not be assigned inside it (no loop-carried state)
+			declared := map[string]bool{}
+			for _, st := range b.List[:len(b.List)-1] {
+				if as, ok := st.(*ast.AssignStmt); ok && as.Tok == token.DEFINE {
+					for _, l := range as.Lhs {
+						if id, ok := l.(*ast.Ident); ok {
+							declared[id.Name] = true
+						}
+					}
+				}
+			}
 			plain := true
 			ast.Inspect(fs.Body, func(n ast.Node) bool {
-				switch n.(type) {
-				case *ast.BranchStmt, *ast.LabeledStmt:
+				switch x := n.(type) {
+				case *ast.BranchStmt:
+					if !(x.Tok == token.CONTINUE && x.Label == nil) {
+						plain = false
+					}
+				case *ast.LabeledStmt:
 					plain = false
+				case *ast.ForStmt, *ast.RangeStmt:
+					plain = false // `continue` inside a nested loop would mean that loop
+				case *ast.AssignStmt:
+					if x.Tok != token.DEFINE {
+						for _, l := range x.Lhs {
+							if id, ok := l.(*ast.Ident); ok && declared[id.Name] {
+								plain = false
+							}
+						}
+					}
 				case *ast.FuncLit:
 					return false
 				}
@@ -344,9 +373,14 @@ func (t *tr) body(b *ast.BlockStmt) string {
 			})
 			if plain {
 				var out []string
+				for _, s := range b.List[:len(b.List)-1] {
+					out = append(out, t.stmt(s))
+				}
+				t.inEndless = true
 				for _, s := range fs.Body.List {
 					out = append(out, t.stmt(s))
 				}
+				t.inEndless = false
 				out = append(out, "(SReturn [(EVar "+q("$continue")+")])")
 				return list(out)
 			}
@@ -477,6 +511,9 @@ func (t *tr) stmt(s ast.Stmt) string {
 			if _, ok := se.X.(*ast.Ident); ok {
 				return "(SSkip " + q("defer timer") + ")" // a metrics timer
 			}
+		}
+		if id, ok := x.Call.Fun.(*ast.Ident); ok && id.Name == "close" && len(x.Call.Args) == 1 {
+			return "(SSkip " + q("defer close") + ")" // closing a local channel when the loop ends
 		}
 		return "(SUnknown " + q("defer "+text(x)) + ")"
 	case *ast.AssignStmt:
@@ -619,6 +656,51 @@ func (t *tr) stmt(s ast.Stmt) string {
 		return "(SIf [] (EBool true) [" + init + strings.TrimSuffix(strings.TrimPrefix(chain, "["), "]") + "] [])"
 	case *ast.SelectStmt:
 		// select { case <-ctx.Done(): <oncancel>; case ch <- v: }   (the cancellable send; nothing else is in the fragment)
+		{
+			// select { case <-ctx.Done(): body; case <-a: case <-b: ... }: wait for any of the channels unless cancelled
+			var doneC *ast.CommClause
+			var chans []string
+			okAll := len(x.Body.List) >= 3
+			for _, c := range x.Body.List {
+				cc := c.(*ast.CommClause)
+				es, isExpr := cc.Comm.(*ast.ExprStmt)
+				if !isExpr {
+					okAll = false
+					break
+				}
+				u, isRecv := es.X.(*ast.UnaryExpr)
+				if !isRecv || u.Op != token.ARROW {
+					okAll = false
+					break
+				}
+				if strings.HasSuffix(text(u.X), ".Done()") {
+					doneC = cc
+				} else if len(cc.Body) == 0 {
+					chans = append(chans, t.expr(u.X))
+				} else {
+					okAll = false
+				}
+			}
+			if okAll && doneC != nil && len(chans) >= 2 {
+				return "(SIf [] (EBool true) [(SIf [] (ECall " + q("$ctxdone") + " []) " + t.block(&ast.BlockStmt{List: doneC.Body}) + " []); (SAssign [" + q("_") + "] (ECall " + q("$wait_any") + " " + list(chans) + "))] [])"
+			}
+			// select { case ch <- v: default: }: a send that is dropped when it would block
+			if len(x.Body.List) == 2 {
+				var snd *ast.SendStmt
+				hasDefault := false
+				for _, c := range x.Body.List {
+					cc := c.(*ast.CommClause)
+					if cc.Comm == nil && len(cc.Body) == 0 {
+						hasDefault = true
+					} else if ss, ok := cc.Comm.(*ast.SendStmt); ok && len(cc.Body) == 0 {
+						snd = ss
+					}
+				}
+				if snd != nil && hasDefault {
+					return "(SAssign [" + q("_") + "] (ECall " + q("$try_send") + " [" + t.expr(snd.Chan) + "]))"
+				}
+			}
+		}
 		if len(x.Body.List) == 2 {
 			var done *ast.CommClause
 			var send *ast.SendStmt
@@ -652,6 +734,21 @@ func (t *tr) stmt(s ast.Stmt) string {
 					}
 				}
 			}
+			var tick ast.Expr
+			for _, c := range x.Body.List {
+				cc := c.(*ast.CommClause)
+				if es, ok := cc.Comm.(*ast.ExprStmt); ok && len(cc.Body) == 0 {
+					if u, ok := es.X.(*ast.UnaryExpr); ok && u.Op == token.ARROW {
+						if se, ok := u.X.(*ast.SelectorExpr); ok && se.Sel.Name == "C" {
+							tick = se.X
+						}
+					}
+				}
+			}
+			if done != nil && tick != nil {
+				// wait for the next tick of a ticker unless the context is cancelled first
+				return "(SIf [] (EBool true) [(SIf [] (ECall " + q("$ctxdone") + " []) " + t.block(&ast.BlockStmt{List: done.Body}) + " []); (SAssign [" + q("_") + "] (ECall " + q("$tick") + " [" + t.expr(tick) + "]))] [])"
+			}
 			if done != nil && timer != nil {
 				// wait for the duration unless the context is cancelled first
 				return "(SIf [] (EBool true) [(SIf [] (ECall " + q("$ctxdone") + " []) " + t.block(&ast.BlockStmt{List: done.Body}) + " []); (SAssign [" + q("_") + "] (ECall " + q("time.After") + " [" + t.expr(timer) + "]))] [])"
@@ -665,6 +762,11 @@ func (t *tr) stmt(s ast.Stmt) string {
 			}
 		}
 		return "(SUnknown " + q("select "+text(x)) + ")"
+	case *ast.BranchStmt:
+		if x.Tok == token.CONTINUE && x.Label == nil && t.inEndless {
+			return "(SReturn [(EVar " + q("$continue") + ")])"
+		}
+		return "(SUnknown " + q("branch "+text(x)) + ")"
 	case *ast.ForStmt, *ast.RangeStmt:
 		return "(SUnknown " + q("loop") + ")"
 	case *ast.ReturnStmt:
